@@ -230,8 +230,29 @@ impl fmt::Display for Redir {
     }
 }
 
+/// Tests whether the first word of the simple command ends with a colon
+/// (following something else).
+///
+/// The portable parsing mode rejects such a word when it is the first token of
+/// a command.
+fn first_word_ends_with_colon(command: &SimpleCommand) -> bool {
+    command.words.first().is_some_and(|(word, _)| {
+        word.units.len() > 1
+            && word.units.last() == Some(&WordUnit::Unquoted(TextUnit::Literal(':')))
+    })
+}
+
 impl fmt::Display for SimpleCommand {
     fn fmt(&self, f: &mut fmt::Formatter<'_>) -> fmt::Result {
+        // A command name ending with a colon must not become the first token
+        // of the command (where the portable parsing mode rejects it) if it was
+        // not: keep the redirections in front of it.
+        if self.assigns.is_empty() && !self.redirs.is_empty() && first_word_ends_with_colon(self) {
+            let words = self.words.iter().map(|x| &x.0 as &dyn fmt::Display);
+            let redirs = self.redirs.iter().map(|x| x as &dyn fmt::Display);
+            return write!(f, "{}", redirs.chain(words).format(" "));
+        }
+
         let i1 = self.assigns.iter().map(|x| x as &dyn fmt::Display);
         let i2 = self.words.iter().map(|x| &x.0 as &dyn fmt::Display);
         let i3 = self.redirs.iter().map(|x| x as &dyn fmt::Display);
